@@ -165,6 +165,7 @@ fn conforms(expected: &Value, got: &Value) -> bool {
 
 fn replay_chunk(cases: &[Value], rep: &mut Report) {
   for case in cases {
+    note_case(&case["row"]);
     let row = &case["row"];
     let kind = s(&row["kind"]).to_string();
     let variants = if kind == "parse" && i(&row["off"]) == 0 { 2 } else { 1 };
